@@ -21,9 +21,11 @@ package limiter
 //@   modifies *
 //@   ensures [not_leader] !isLeaderOf(old(r.leaderElector), shardOf(old(cluster.Name), old(r.shardCount))) ==> result == nil && storeops == old(storeops)
 
-//@ func (*rateLimiter).deleteCondition props C13
+//@ func (*rateLimiter).deleteCondition props C13, C18
 //@   requires [n_range] 1 <= r.shardCount && r.shardCount <= 4294967295
-//@   modifies *
+//@   modifies storeops, localdeletes, conddeleted[limitStore], hashwritten
+//@   ensures [only_this_condition] forall n string :: {n in conddeleted[limitStore]} (n in conddeleted[limitStore]) && !old(n in conddeleted[limitStore]) ==> n == condition.Name && len(condition.Spec.Instance) > 0
+//@   ensures [leader_deletes] isLeaderOf(r.leaderElector, shardOf(condition.Spec.UpstreamCluster, r.shardCount)) && len(condition.Spec.Instance) > 0 ==> (condition.Name in conddeleted[limitStore])
 //@   ensures [not_leader] !isLeaderOf(old(r.leaderElector), shardOf(old(condition.Spec.UpstreamCluster), old(r.shardCount))) ==> storeops == old(storeops)
 
 //@ func (*rateLimiter).getLimitStoreForShard props C13
@@ -71,3 +73,90 @@ package limiter
 //@   modifies *
 //@   ensures [inflight] flowControlType == "MaxRequestsInflight" ==> limit.MaxRequestsInflight != nil && limit.MaxRequestsInflight.Max == int32(qps)
 //@   ensures [bucket] flowControlType == "TokenBucket" ==> limit.TokenBucket != nil && limit.TokenBucket.QPS == int32(qps) && limit.TokenBucket.Burst == int32(burst)
+
+// ---- C18: heartbeats and cleanup ----
+//@ const HB = &s.clientHeartbeats
+
+//@ func (*ClientCache).Heartbeat props C18
+//@   modifies smap(&s.clientHeartbeats)[box(instance)], clock
+//@   ensures [recorded] smhas(HB, box(instance)) && typeis(smget(HB, box(instance)), "time.Time") && tnanos(unbox(smget(HB, box(instance)), "time.Time")) == clock && clock >= old(clock)
+
+//@ func (*ClientCache).Delete props C18
+//@   modifies smap(&s.clientHeartbeats)[box(instance)]
+//@   ensures [removed] !smhas(HB, box(instance))
+
+//@ func (*ClientCache).AllClients$1 props C18
+//@   iterator-body syncmap
+//@   modifies heartbeatTime[*]
+//@   ensures [ret] result
+//@   ensures [each_copied] typeis(key, "string") && typeis(value, "time.Time") ==> (unbox(key, "string") in heartbeatTime) && heartbeatTime[unbox(key, "string")] == unbox(value, "time.Time")
+//@   ensures [only_keys] forall n string :: {n in heartbeatTime} (n in heartbeatTime) && !old(n in heartbeatTime) ==> smhas(iterated, box(n))
+
+//@ func (*ClientCache).AllClients props C18
+//@   modifies nothing
+//@   ensures [exact] result1 == nil && ((forall k ref :: {smhas(HB, k)} smhas(HB, k) ==> typeis(k, "string") && typeis(smget(HB, k), "time.Time")) ==> forall n string :: {n in result} ((n in result) <==> smhas(HB, box(n))) && ((n in result) ==> result[n] == unbox(smget(HB, box(n)), "time.Time")))
+
+//@ const RHB = &r.clientCache.clientHeartbeats
+//@ const CLEANUP = "(*rateLimiter).cleanupTimeoutClient$1"
+
+//@ func (*rateLimiter).deleteGlobalFlowControl props C18
+//@   modifies storeops, instcleared[limitStore]
+//@   ensures [cleared] forall i string :: {i in instcleared[limitStore]} (i in instcleared[limitStore]) <==> old(i in instcleared[limitStore]) || i == instance
+
+//@ func (*rateLimiter).cleanupTimeoutClient$1 props C18
+//@   requires [n_range] 1 <= r.shardCount && r.shardCount <= 4294967295
+//@   modifies storeops, localdeletes, conddeleted, instcleared, hashwritten
+//@   ensures [cleared_everywhere] forall sh int :: {sh in r.limitStoreMap} (sh in r.limitStoreMap) ==> (instance in instcleared[r.limitStoreMap[sh]])
+//@   ensures [only_this_instance] forall s ref, i string :: {i in instcleared[s]} (i in instcleared[s]) && !old(i in instcleared[s]) ==> i == instance
+//@   loop 0: invariant [bounds] 0 <= idx && idx <= len(rangekeys)
+//@   loop 0: invariant [done] forall j int :: {rangekeys[j]} 0 <= j && j < idx ==> (instance in instcleared[r.limitStoreMap[rangekeys[j]]])
+//@   loop 0: invariant [only_this_instance] forall s ref, i string :: {i in instcleared[s]} (i in instcleared[s]) && !old(i in instcleared[s]) ==> i == instance
+//@   loop 0: invariant [monotone] forall s ref, i string :: {i in instcleared[s]} old(i in instcleared[s]) ==> (i in instcleared[s])
+//@   loop 1: invariant [bounds] 0 <= idx && idx <= len(conditions)
+//@   loop 1: invariant [kept] instcleared == atloop(1, instcleared)
+
+//@ const hbTyped = r.clientCache != nil && (forall k ref :: {smhas(RHB, k)} smhas(RHB, k) ==> typeis(k, "string") && typeis(smget(RHB, k), "time.Time"))
+
+//@ func (*rateLimiter).cleanupTimeoutClient props C18
+//@   requires [typed] hbTyped
+//@   modifies smap(&r.clientCache.clientHeartbeats), clock, spawned
+//@   ensures [live_kept] forall n string :: {smhas(RHB, box(n))} old(smhas(RHB, box(n))) && tnanos(old(unbox(smget(RHB, box(n)), "time.Time"))) + HBTIMEOUT >= clock ==> smhas(RHB, box(n)) && smget(RHB, box(n)) == old(smget(RHB, box(n)))
+//@   ensures [expired_removed] forall n string :: {smhas(RHB, box(n))} old(smhas(RHB, box(n))) && tnanos(old(unbox(smget(RHB, box(n)), "time.Time"))) + HBTIMEOUT < old(clock) ==> !smhas(RHB, box(n))
+//@   ensures [nothing_added] forall k ref :: {smhas(RHB, k)} smhas(RHB, k) ==> old(smhas(RHB, k)) && smget(RHB, k) == old(smget(RHB, k))
+//@   ensures [cleanup_spawned] forall n string :: {smhas(RHB, box(n))} old(smhas(RHB, box(n))) && !smhas(RHB, box(n)) ==> exists f ref :: {f in spawned} (f in spawned) && closureof(f, CLEANUP) && freevar(f, CLEANUP, "instance") == n && freevar(f, CLEANUP, "r") == r
+//@   ensures [only_expired_spawned] forall f ref :: {f in spawned} (f in spawned) && !old(f in spawned) ==> closureof(f, CLEANUP) && old(smhas(RHB, box(freevar(f, CLEANUP, "instance")))) && !smhas(RHB, box(freevar(f, CLEANUP, "instance")))
+//@   loop 0: invariant [bounds] 0 <= idx && idx <= len(rangekeys) && clock >= old(clock)
+//@   loop 0: invariant [kept] forall n string :: {smhas(RHB, box(n))} old(smhas(RHB, box(n))) && tnanos(old(unbox(smget(RHB, box(n)), "time.Time"))) + HBTIMEOUT >= clock ==> smhas(RHB, box(n))
+//@   loop 0: invariant [only_removes] forall k ref :: {smhas(RHB, k)} smhas(RHB, k) ==> old(smhas(RHB, k)) && smget(RHB, k) == old(smget(RHB, k))
+//@   loop 0: invariant [removed_prefix] forall j int :: {rangekeys[j]} 0 <= j && j < idx && tnanos(old(unbox(smget(RHB, box(rangekeys[j])), "time.Time"))) + HBTIMEOUT < old(clock) ==> !smhas(RHB, box(rangekeys[j]))
+//@   loop 0: invariant [cleanup_spawned] forall n string :: {smhas(RHB, box(n))} old(smhas(RHB, box(n))) && !smhas(RHB, box(n)) ==> exists f ref :: {f in spawned} (f in spawned) && closureof(f, CLEANUP) && freevar(f, CLEANUP, "instance") == n && freevar(f, CLEANUP, "r") == r
+//@   loop 0: invariant [only_expired_spawned] forall f ref :: {f in spawned} (f in spawned) && !old(f in spawned) ==> closureof(f, CLEANUP) && old(smhas(RHB, box(freevar(f, CLEANUP, "instance")))) && !smhas(RHB, box(freevar(f, CLEANUP, "instance")))
+//@   loop 0: invariant [other_maps] forall a ref, k ref :: {smhas(a, k)} a != RHB ==> smhas(a, k) == old(smhas(a, k)) && smget(a, k) == old(smget(a, k))
+//@   loop 0: invariant [clients] forall n string :: {n in clients} ((n in clients) <==> old(smhas(RHB, box(n)))) && ((n in clients) ==> clients[n] == old(unbox(smget(RHB, box(n)), "time.Time")))
+
+//@ const expectAll = forall n string :: {n in expectClients} {n in clients} (n in clients) ==> (n in expectClients) && expectClients[n]
+//@ const toDeleteDead = forall i string :: {i in clientsToDelete} (i in clientsToDelete) ==> !(i in clients) && len(i) > 0
+//@ const clearedOnlyDead = forall s ref, i string :: {i in instcleared[s]} (i in instcleared[s]) && !old(i in instcleared[s]) ==> !old(smhas(RHB, box(i))) && len(i) > 0
+//@ const clientsExact = forall n string :: {n in clients} (n in clients) <==> old(smhas(RHB, box(n)))
+
+//@ func (*rateLimiter).cleanupUnknownCondition props C18
+//@   requires [typed] hbTyped
+//@   requires [n_range] 1 <= r.shardCount && r.shardCount <= 4294967295
+//@   modifies storeops, localdeletes, conddeleted, instcleared, hashwritten
+//@   ensures [live_untouched] clearedOnlyDead
+//@   ensures [todelete_cleared] afterloop(5) ==> forall i string, sh int :: {i in clientsToDelete, sh in r.limitStoreMap} (i in clientsToDelete) && (sh in r.limitStoreMap) ==> (i in instcleared[r.limitStoreMap[sh]])
+//@   loop 0: invariant [bounds] 0 <= idx && idx <= len(rangekeys) && clientsExact
+//@   loop 0: invariant [expect] forall j int :: {rangekeys[j]} 0 <= j && j < idx ==> (rangekeys[j] in expectClients) && expectClients[rangekeys[j]]
+//@   loop 1: invariant [keep] expectAll && clientsExact
+//@   loop 2: invariant [keep] expectAll && clientsExact && toDeleteDead && instcleared == old(instcleared)
+//@   loop 3: invariant [keep] expectAll && clientsExact && toDeleteDead && instcleared == old(instcleared)
+//@   loop 4: invariant [bounds] 0 <= idx && idx <= len(rangekeys)
+//@   loop 4: invariant [keep] clientsExact && toDeleteDead && clearedOnlyDead
+//@   loop 4: invariant [monotone] forall s ref, i string :: {i in instcleared[s]} old(i in instcleared[s]) ==> (i in instcleared[s])
+//@   loop 4: invariant [done] forall j int, sh int :: {rangekeys[j], sh in r.limitStoreMap} 0 <= j && j < idx && (sh in r.limitStoreMap) ==> (rangekeys[j] in instcleared[r.limitStoreMap[sh]])
+//@   loop 5: invariant [bounds] 0 <= idx && idx <= len(rangekeys)
+//@   loop 5: invariant [keep] clientsExact && toDeleteDead && clearedOnlyDead
+//@   loop 5: invariant [monotone] forall s ref, i string :: {i in instcleared[s]} atloop(5, i in instcleared[s]) ==> (i in instcleared[s])
+//@   loop 5: invariant [inner_done] forall j int :: {rangekeys[j]} 0 <= j && j < idx ==> (instance in instcleared[r.limitStoreMap[rangekeys[j]]])
+//@   loop 6: invariant [keep] clearedOnlyDead && instcleared == atloop(6, instcleared)
+//@   loop 7: invariant [keep] clearedOnlyDead && instcleared == atloop(6, instcleared)
